@@ -143,14 +143,14 @@ type srvJob struct {
 	rh     http.Header
 	hooks  []hookCall
 	script func(c *websocket.Conn) error
-	res    chan srvRes
+	res    chan srvRes // what Upgrade returned (sent before the script runs)
+	done   chan error  // what the script returned
 }
 
 type srvRes struct {
-	conn   bool   // Upgrade returned a connection
-	err    error  // Upgrade's error
-	sub    string // Conn.Subprotocol()
-	script error  // what the script returned
+	conn bool   // Upgrade returned a connection
+	err  error  // Upgrade's error
+	sub  string // Conn.Subprotocol()
 }
 
 var hsOnce sync.Once
@@ -178,11 +178,12 @@ func hsServer() *httptest.Server {
 				return
 			}
 			defer c.Close()
-			res := srvRes{conn: true, sub: c.Subprotocol()}
+			job.res <- srvRes{conn: true, sub: c.Subprotocol()}
 			if job.script != nil {
-				res.script = job.script(c)
+				job.done <- job.script(c)
+			} else {
+				job.done <- nil
 			}
-			job.res <- res
 		}))
 	})
 	return hsSrv
@@ -194,6 +195,7 @@ func addJob(j *srvJob) string {
 	hsSeq++
 	p := fmt.Sprintf("/u/%d", hsSeq)
 	j.res = make(chan srvRes, 1)
+	j.done = make(chan error, 1)
 	hsJobs[p] = j
 	return p
 }
@@ -202,6 +204,15 @@ func dropJob(p string) {
 	hsMu.Lock()
 	delete(hsJobs, p)
 	hsMu.Unlock()
+}
+
+func waitDone(ch chan error) error {
+	select {
+	case e := <-ch:
+		return e
+	case <-time.After(ioWait):
+		return fmt.Errorf("the server's script did not finish within %v", ioWait)
+	}
 }
 
 func waitRes(ch chan srvRes) (srvRes, error) {
@@ -270,7 +281,7 @@ func serverVerdict(cs *negCase, job *srvJob, res srvRes, status int, respProto [
 	if x.ServerOk {
 		if !res.conn {
 			dev := ""
-			if g.Origin == "samecase" && g.Policy == "default" && status == 403 {
+			if g.Origin == "samecase" && g.Policy == "default" && (status == 403 || (g.Hook && status == 499)) {
 				dev = "X05/origin-host-compared-case-sensitively"
 			}
 			return dev, fmt.Errorf("the request is a handshake from an acceptable origin, but Upgrade refused it: %v (status %d)", res.err, status)
@@ -424,8 +435,8 @@ func runCrafted(c *rp.Ctx, i, h int, cs *negCase) rp.Result {
 		if fr[0] != 0x81 || string(p) != "sub="+cs.Exp.SubS {
 			return rp.Fail(i, "the server's first frame is % x %q, expected the text %q", fr, p, "sub="+cs.Exp.SubS)
 		}
-		if res.script != nil {
-			return rp.Fail(i, "server: %v", res.script)
+		if e := waitDone(job.done); e != nil {
+			return rp.Fail(i, "server: %v", e)
 		}
 	}
 	return rp.Result{I: i, OK: true, Nontriv: true}
@@ -496,9 +507,7 @@ func runLib(c *rp.Ctx, i, h int, cs *negCase) rp.Result {
 		return rp.Fail(i, "Dial returned no response (err=%v): the documentation promises a non-nil *http.Response when the handshake fails", err)
 	}
 	// the server's side (for a session that came up its script has run to the end only if the client played along; judged below)
-	sres := res
-	sres.script = nil
-	dev, verr := serverVerdict(cs, job, sres, status, rproto, vh)
+	dev, verr := serverVerdict(cs, job, res, status, rproto, vh)
 	if verr != nil {
 		return rp.Result{I: i, OK: false, Deviation: dev, What: verr.Error()}
 	}
@@ -544,8 +553,8 @@ func runLib(c *rp.Ctx, i, h int, cs *negCase) rp.Result {
 	if !websocket.IsCloseError(err, websocket.CloseNormalClosure) {
 		return rp.Fail(i, "after its Close 1000 the client read %v, expected the echo 1000", err)
 	}
-	if res.script != nil {
-		return rp.Fail(i, "server: %v", res.script)
+	if e := waitDone(job.done); e != nil {
+		return rp.Fail(i, "server: %v", e)
 	}
 	return rp.Result{I: i, OK: true, Nontriv: true}
 }
